@@ -150,6 +150,7 @@ type obs struct {
 	// for the cause of a canary failure: genuine trees (1..3) whose stored copy differs
 	// from the genuine tree, and genuine trees that are requested but not received
 	Forged  []int `json:"forged,omitempty"`
+	Genuine []int `json:"genuine,omitempty"` // genuine trees stored as they are
 	Awaited []int `json:"awaited,omitempty"`
 }
 
@@ -900,6 +901,8 @@ func (w *world) snapshot(o *obs) {
 				}
 				if code == 2 && !sameShape(w.ov.VerifTree(id), w.trees[n]) {
 					o.Forged = append(o.Forged, n)
+				} else if code == 2 {
+					o.Genuine = append(o.Genuine, n)
 				}
 			}
 			o.Removal = append(o.Removal, fmt.Sprintf("(%d, %s)", n, lib.Bool(w.ov.VerifRemovalPending(id))))
@@ -1211,13 +1214,23 @@ func sameShape(a, b *onet.Tree) bool {
 // cause of a canary failure, read off the server's state at the failure: the
 // canary's tree is stored forged (F72 if the server had the tree, F73 if it was
 // waiting for it), or it is still awaited and its sender was not asked (F71)
-func cause(op jop, o *obs) string {
+func cause(op jop, seen []*obs) string {
+	o := seen[len(seen)-1]
 	t := canaryTree(op)
 	if op.Canary == "reqroster" {
 		t = 1
 	}
 	for _, n := range o.Forged {
 		if n == t {
+			// a tree the server had (from the start, or received genuine earlier in this
+			// history) has been replaced: the class of F72, not of F73
+			for _, e := range seen[:len(seen)-1] {
+				for _, g := range e.Genuine {
+					if g == t {
+						return "poison-known"
+					}
+				}
+			}
 			if t == 1 {
 				return "poison-known"
 			}
@@ -1876,7 +1889,7 @@ func run(raw json.RawMessage) lib.Case {
 			case !o.ReplyOK:
 				verdict = "noreply@" + o.Tag // the handler's reply did not reach its parent
 			case op.Canary != "" && !o.Canary:
-				verdict = fmt.Sprintf("canary-%s%d:%s", op.Canary, canaryTree(op), cause(op, o))
+				verdict = fmt.Sprintf("canary-%s%d:%s", op.Canary, canaryTree(op), cause(op, os_[:i+1]))
 			}
 		}
 	}
@@ -2109,7 +2122,23 @@ func (g *gen) envelope() jop {
 func (g *gen) history(state string) input {
 	n := 1 + g.rng.Intn(30)
 	in := input{State: state, Net: g.net, Ops: statePrefix(state)}
+	// one history in four carries the late-roster sequence on the awaited tree 2, woven into
+	// the random envelopes: a forged description queued for an unknown roster, the genuine
+	// tree arriving, the roster arriving afterwards
+	weave := map[int]jop{}
+	if g.rng.Intn(4) == 0 && n >= 3 {
+		seq := lateRoster(2, g.rng.Intn(3) == 0)
+		pos := g.rng.Perm(n)[:3]
+		sort.Ints(pos)
+		for j, q := range pos {
+			weave[q] = seq[j]
+		}
+	}
 	for i := 0; i < n; i++ {
+		if op, ok := weave[i]; ok {
+			in.Ops = append(in.Ops, op)
+			continue
+		}
 		if g.rng.Intn(12) == 0 {
 			// local events in between: the running instance finishes
 			in.Ops = append(in.Ops, jop{K: "done", Tok: legitTok(1, 11)})
@@ -2120,6 +2149,21 @@ func (g *gen) history(state string) input {
 	in.Ops = append(in.Ops, canaries(g.net)...)
 	in.Name = fmt.Sprintf("%s-%d", state, n)
 	return in
+}
+
+// lateRoster: a forged description of an awaited tree is queued for an unknown roster, the
+// genuine tree arrives (from its root, or registered by a local service), then the roster
+// of the forged description arrives: the queued description must not be used any more
+func lateRoster(tree int, local bool) []jop {
+	arrive := legitResp(tree)
+	if local {
+		arrive = jop{K: "tree", Tree: tree}
+	}
+	return []jop{
+		{K: "recv", P: 3, M: &jmsg{T: "treemarshal", TM: &jtm{Tr: tree, Ro: 5, Ch: []jnode{{N: 3, S: 3}}}}},
+		arrive,
+		{K: "recv", P: 3, M: &jmsg{T: "roster", RO: &jro{ID: 5, L: []jmem{{3, true}}}}},
+	}
 }
 
 var states = []string{"idle", "midrun", "done", "mixed"}
@@ -2202,6 +2246,16 @@ func corpus() []interface{} {
 			recv(3, &jmsg{T: "reqtree", Tree: 1, Ver: 0}),
 			recv(3, &jmsg{T: "config"}),
 			recv(3, &jmsg{T: "roster", RO: &jro{}}))
+	}
+	// a queued forged description whose roster arrives after the genuine tree
+	for _, netMode := range []bool{false, true} {
+		for i, st := range []string{"idle", "midrun", "done"} {
+			in := input{Name: "late-roster-after-genuine-tree", State: st, Net: netMode, Ops: statePrefix(st)}
+			in.Ops = append(in.Ops, lateRoster(2, i == 2 && !netMode)...)
+			in.Ops = append(in.Ops, recv(3, &jmsg{T: "reqtree", Tree: 2, Ver: 1}))
+			in.Ops = append(in.Ops, canaries(netMode)...)
+			ins = append(ins, in)
+		}
 	}
 	// aggregated and channel dispatch with peer-controlled sender tokens
 	for _, netMode := range []bool{false, true} {
